@@ -4,6 +4,7 @@ package main
 
 import (
 	"fmt"
+	"go/token"
 	"go/types"
 	"sort"
 	"strings"
@@ -21,6 +22,8 @@ func init() {
 		{Name: "ping-packets-as-package-singletons", Rule: "R14.6", Where: "ReadPacket", Edits: []Edit{
 			{"packet.go", "\tcase PINGREQ:\n\t\tp = &PingReq{fixed: f.fixed}", "\tcase PINGREQ:\n\t\tsharedPingReq.fixed = f.fixed\n\t\tp = sharedPingReq"},
 			{"packet.go", "type fixedHeader struct {", "var sharedPingReq = &PingReq{}\n\ntype fixedHeader struct {"}}},
+		{Name: "setwill-keeps-a-shallow-copy", Rule: "R14.7", Where: "(*Connect).SetWill#packet-copy", Edits: []Edit{{"connect.go", "\tp.will = will\n", "\tw := *will\n\tp.will = &w\n"}}},
+		{Name: "addfilters-keeps-the-callers-slice", Rule: "R14.8", Where: "(*Subscribe).AddFilters#append-onto-caller-slice", Edits: []Edit{{"subscribe.go", "\tp.filters = append(p.filters, v...)", "\tif len(p.filters) == 0 {\n\t\tp.filters = v\n\t\treturn\n\t}\n\tp.filters = append(p.filters, v...)"}}},
 		{Name: "shared-frame-buffer", Rule: "R14.4", Where: "ReadRemaining", Edits: []Edit{
 			{"packet.go", "\tdata := make([]byte, int(f.remainingLen))\n", "\tif cap(frameBuf) < int(f.remainingLen) {\n\t\tframeBuf = make([]byte, int(f.remainingLen))\n\t}\n\tdata := frameBuf[:int(f.remainingLen)]\n"},
 			{"packet.go", "type fixedHeader struct {", "var frameBuf []byte\n\ntype fixedHeader struct {"}}},
@@ -45,6 +48,8 @@ func checkC14(p *Prog, c *Check) {
 	c.Rule("R14.2", "package variables are assigned only in init, their storage and the fields that may share it are never written in place (same rule as C13 R13.2)")
 	c.Rule("R14.3", "no exported function or method returns a slice, map or pointer whose provenance is a package variable's storage, nor an uncopied load of a field that may share such storage")
 	c.Rule("R14.5", "no decoder overwrites storage its receiver already held when the call began (which the caller may share with other packets through setters and accessors): every element store, copy destination and re-sliced append base on the decode path is a fresh allocation of that call")
+	c.Rule("R14.7", "control packets are handled through pointers only: no whole packet value is loaded or stored (a struct copy would share the backing arrays of its list fields between two packets)")
+	c.Rule("R14.8", "no function appends in place to (or writes through) a list field that some exported setter or adder fills with the caller's own slice: storage handed in by the caller is never grown in place, so two packets built from one slice cannot overwrite each other")
 	c.Rule("R14.6", "ReadPacket writes only memory allocated during the call and returns a packet allocated during the call: packets from different calls share nothing (same rule as C13 R13.3)")
 	c.Rule("R14.4", "on ReadPacket's call tree the buffer handed to UnmarshalBinary is allocated freshly in that call")
 	c.Explanation = "Retention edges (value of provenance X stored into memory of provenance Y) are computed by the provenance analysis of C13, field-sensitively for fresh objects such as the sequential reader; string(b), copy and make produce fresh memory. For every UnmarshalBinary the summary must contain no edge from the data parameter (or anything reachable from it) into non-fresh memory, no result carrying it and no write through it. Shared state between packets can only arise through package-level storage, which R14.2/R14.3 exclude, or through the frame buffer, which R14.4 shows to be per call."
@@ -290,6 +295,9 @@ func checkC14(p *Prog, c *Check) {
 
 	// R14.6
 	ruleReadPacketFresh(p, c, "R14.6")
+	// R14.7
+	rulePacketsByPointerOnly(p, c, "R14.7")
+	ruleNoAppendOntoCallerStorage(p, c, "R14.8")
 
 	// R14.4
 	rp, msg := p.readPacketAnchor()
@@ -343,4 +351,117 @@ func freshMakeOf(e *Effects, v ssa.Value, fn *ssa.Function, depth int) bool {
 		return true
 	}
 	return e.p.Reach([]*ssa.Function{fn})[ms.Parent()]
+}
+
+// rulePacketsByPointerOnly: no instruction of package mq loads or stores a whole value of a control packet type
+// (packets are handled through pointers only).  A struct copy of a packet shares the backing arrays of its list
+// fields (user properties, subscription identifiers, filters) between two packets; the in-place appends of the
+// adders then let one packet overwrite the other's elements.
+func rulePacketsByPointerOnly(p *Prog, c *Check, rule string) {
+	isPacket := map[string]bool{"Undefined": true}
+	for _, n := range specPacketTypes {
+		isPacket[n] = true
+	}
+	packetStruct := func(t types.Type) string {
+		nt := namedOf(t)
+		if nt == nil || nt.Obj().Pkg() != p.Pkg || !isPacket[nt.Obj().Name()] {
+			return ""
+		}
+		if _, ok := nt.Underlying().(*types.Struct); !ok {
+			return ""
+		}
+		if _, isPtr := t.Underlying().(*types.Pointer); isPtr {
+			return ""
+		}
+		return nt.Obj().Name()
+	}
+	n, bad := 0, 0
+	for _, fn := range p.AllFuncs() {
+		for _, b := range fn.Blocks {
+			for _, ins := range b.Instrs {
+				n++
+				var tn string
+				switch x := ins.(type) {
+				case *ssa.UnOp:
+					if x.Op == token.MUL {
+						tn = packetStruct(x.Type())
+					}
+				case *ssa.Store:
+					tn = packetStruct(x.Val.Type())
+					if _, isAlloc := x.Addr.(*ssa.Alloc); isAlloc && tn != "" {
+						if _, isLit := x.Val.(*ssa.Const); isLit {
+							tn = "" // zeroing a fresh local
+						}
+					}
+				}
+				if tn != "" {
+					bad++
+					c.Bad(rule, fmt.Sprintf("%s#packet-copy%d", qname(fn), bad), posOf(p, ins), "a whole "+tn+" is copied by value: the copy shares the backing arrays of its list fields with the original, and the adders append in place")
+				}
+			}
+		}
+	}
+	if bad == 0 {
+		c.OK(rule, "packet values", "-", "no load or store of a whole control packet value in package mq: packets are handled through pointers only")
+	}
+}
+
+// ruleNoAppendOntoCallerStorage: a list field that an exported setter/adder may fill with the caller's own slice
+// (the slice value itself, not copies of its elements) must never be the base of an in-place append or the target
+// of an element write anywhere in the package.
+func ruleNoAppendOntoCallerStorage(p *Prog, c *Check, rule string) {
+	e := p.allEffects()
+	type fld struct {
+		T string
+		F int
+	}
+	held := map[fld]string{} // field -> where the caller's slice is stored into it
+	for _, m := range p.Roots().Mutator {
+		sum := e.Summary(m)
+		if sum == nil || m.Signature.Recv() == nil {
+			continue
+		}
+		rt := typeStr(m.Signature.Recv().Type())
+		for _, r := range sum.Retains {
+			if r.Val.Kind != PParam || r.Val.Idx < 1 || r.Val.F != 0 {
+				continue
+			}
+			if r.Into.Kind != PParam || r.Into.Idx != 0 || r.Into.F == 0 {
+				continue
+			}
+			st, ok := r.Ins.(*ssa.Store)
+			if !ok {
+				continue
+			}
+			if _, isSlice := st.Val.Type().Underlying().(*types.Slice); !isSlice {
+				continue
+			}
+			held[fld{rt, r.Into.F - 1}] = qname(m) + " at " + posOf(p, r.Ins)
+		}
+	}
+	n, bad := 0, 0
+	for _, fn := range p.AllFuncs() {
+		if fn.Signature.Recv() == nil {
+			continue
+		}
+		sum := e.Summary(fn)
+		if sum == nil {
+			continue
+		}
+		rt := typeStr(fn.Signature.Recv().Type())
+		for _, w := range sum.Writes {
+			if w.Kind != EAppend || (w.Target.Kind != PParam && w.Target.Kind != PParamR) || w.Target.Idx != 0 || w.Target.F == 0 {
+				continue
+			}
+			n++
+			if where, isHeld := held[fld{rt, w.Target.F - 1}]; isHeld {
+				bad++
+				c.Bad(rule, fmt.Sprintf("%s#append-onto-caller-slice%d", qname(fn), bad), posOf(p, w.Ins), "appends in place to a field that may hold the caller's own slice (stored by "+where+"): elements the caller appended to its slice meanwhile are overwritten")
+			}
+		}
+	}
+	c.Measured["fields_holding_caller_slices"] = len(held)
+	if bad == 0 {
+		c.OK(rule, "list fields", "-", fmt.Sprintf("%d field(s) may hold a caller's slice; none of the %d in-place appends on receiver fields targets one of them", len(held), n))
+	}
 }
